@@ -17,4 +17,11 @@ PROPS = {
                                      "symlink resolution (filepathext.RealClean/EvalSymlinks) and normalpath_windows.go are not modelled"],
         "assumptions": ["strings are valid UTF-8", "disk parent: stored path sets are kept prefix-free by the generator", "no symlinks inside bucket roots"],
     },
+    "C14": {
+        "harness": "c14", "protocol": "c14", "level": "proof", "stateful": True,
+        "rule": "random operation histories (6-20 ops) over 1-3 base buckets (memory or disk) and one composite read bucket built from them by MapReadBucket/FilterReadBucket/MultiReadBucket/OverlayReadBucket (random nesting, depth<=3): put (empty, 64KiB, 1MiB, atomic or not), delete, delete-all and walk on file/dir/''/'.'/string-prefix-but-not-path-prefix arguments, get/stat aimed at visible objects 2/3 of the time, copy via storage.Copy / Tar+Untar / Zip+Unzip. Non-trivial: at least one get/walk/copy returned data; distinct = distinct protocol lines.",
+        "trusted_base": COMMON_TB + ["disk bucket modelled by the same map under the prefix-free hypothesis (generator keeps disk path sets prefix-free; conflicting ops are skipped and counted)",
+                                     "archive/tar and klauspost zip codecs are library parameters (round trip exercised, not proved)"],
+        "assumptions": ["strings are valid UTF-8", "ExternalPath/LocalPath bookkeeping is not compared", "copying a bucket onto itself is excluded"],
+    },
 }
